@@ -167,7 +167,7 @@ def _scan_semantics(db, chk, mod, f, make_events, root_of, upto=None):
         upto = 6 if chk.tier == "thorough" else 4          # thorough tier: all 196 well-nested sequences of up to six events
     lp = _stack_loop(f)[0] or _scan_loop(f)          # the loop that pushes and pops a local stack; else the one loop that adds edges (the stack may live in a helper object)
     where = mod.loc(f)
-    if lp is None or not isinstance(lp.iter, ast.Name):
+    if lp is None:
         return None
 
     def find(block):
@@ -187,7 +187,7 @@ def _scan_semantics(db, chk, mod, f, make_events, root_of, upto=None):
     if hit is None:
         return None
     blk, i = hit
-    evname = lp.iter.id
+    evname = lp.iter.id if isinstance(lp.iter, ast.Name) else "__scan_events__"          # (the loop may walk the result of a helper call: the abstract runs hand it the endpoint sequence directly)
     # the scan's own state: the local containers / constants initialised in front of the loop (the stack among them); everything else there - timers, sorting,
     # checks of the array - belongs to other rules
     def fresh(v):
@@ -196,6 +196,8 @@ def _scan_semantics(db, chk, mod, f, make_events, root_of, upto=None):
             (isinstance(v, ast.Call) and H.name_id(v.func) in mod.classes and all(isinstance(a_, ast.Constant) for a_ in v.args) and all(isinstance(k_.value, ast.Constant) for k_ in v.keywords))          # a small state object
     stmts = [copy.deepcopy(s_) for s_ in blk[:i] if isinstance(s_, (ast.Assign, ast.AnnAssign)) and s_.value is not None and fresh(s_.value)
              and all(isinstance(t, ast.Name) and t.id != evname for t in (s_.targets if isinstance(s_, ast.Assign) else [s_.target]))] + [copy.deepcopy(lp)]
+    if not isinstance(lp.iter, ast.Name):
+        stmts[-1].iter = ast.copy_location(ast.Name(id=evname, ctx=ast.Load()), lp.iter)
     fn = ast.FunctionDef(name="__scan__", args=ast.arguments(posonlyargs=[], args=[ast.arg(arg="self"), ast.arg(arg=evname)], kwonlyargs=[], kw_defaults=[], defaults=[]),
                          body=stmts, decorator_list=[], returns=None, type_params=[])
     ast.copy_location(fn, lp)
@@ -513,14 +515,15 @@ def _builders(db, chk, new, old, OPEN_N, CLOSE_N, START_O, END_O):
     want = sorted([("row.index", "row.ts", "row.dur", "EVENT_START"), ("row.index", "row.end", "row.dur", "EVENT_END")])
     cols_got = sorted(tuple(colname(a) for a in c.args) for c in evs)
     oke = len(evs) == 2 and cols_got == sorted([("index", "ts", "dur", "EVENT_START"), ("index", "end", "dur", "EVENT_END")])
-    chk.ob("C03.R4-encoding", f"{OLD}: every row yields Event(id, ts, dur, START) and Event(id, end, dur, END)", oke if len(evs) == 2 else None, old.loc(g), found=got, accepted=want,
+    recognised = len(evs) == 2 and all(c_ in ("index", "ts", "end", "dur") for row_ in cols_got for c_ in row_[:3])          # (every data argument read as a column of the row; plain locals from a zip over arrays are not followed by this rule)
+    chk.ob("C03.R4-encoding", f"{OLD}: every row yields Event(id, ts, dur, START) and Event(id, end, dur, END)", True if oke else (False if recognised else None), old.loc(g), found=got, accepted=want,
            why="positional construction must agree with the field order the comparator reads")
     endo = [s for s in ast.walk(g) if isinstance(s, ast.Assign) and isinstance(s.targets[0], ast.Subscript) and lit(s.targets[0].slice) == "end"]
     duro = [s for s in ast.walk(g) if isinstance(s, ast.Assign) and isinstance(s.targets[0], ast.Subscript) and lit(s.targets[0].slice) == "dur"]
     endo = [H.expand(g, e) for e in endo]
     okend = len(endo) == 1 and any(H.match(p_, endo[0]) is not None for p_ in ("$d['end'] = $d['ts'] + $d['dur'].astype(int)", "$d['end'] = $d['ts'] + $d['dur']", "$d['end'] = $d['dur'].astype(int) + $d['ts']", "$d['end'] = $d['dur'] + $d['ts']"))
     okdur = len(duro) == 1 and any(H.match(p_, duro[0]) is not None for p_ in ("$d['dur'] = np.maximum($d['dur'], 0)", "$d['dur'] = np.maximum(0, $d['dur'])", "$d['dur'] = $d['dur'].clip(lower=0)"))
-    chk.ob("C03.R4-encoding", f"{OLD}: end = ts + max(dur, 0)", okend and okdur, old.loc(g), found=[ast.unparse(x) for x in duro + endo], accepted=["df['dur'] = np.maximum(df['dur'], 0)", "df['end'] = df['ts'] + df['dur']"])
+    chk.ob("C03.R4-encoding", f"{OLD}: end = ts + max(dur, 0)", True if (okend and okdur) else (False if (endo or duro) else None), old.loc(g), found=[ast.unparse(x) for x in duro + endo], accepted=["df['dur'] = np.maximum(df['dur'], 0)", "df['end'] = df['ts'] + df['dur']"])
     chk.ob("C03.R4-encoding", f"{OLD}: START/END constants differ", START_O != END_O, OLD, found=[START_O, END_O], accepted="distinct")
 
 
